@@ -71,6 +71,7 @@ var AltQuery = map[string]map[string]string{
 	"pe-exe": {"page-hashes": "true"},
 	"jar":    {"sections-only": "true", "inline-signature": "true"},
 	"vsix":   {"detach-certs": "true"},
+	"deb":    {"role": "origin"}, // the default role is "builder"
 }
 
 func TypeByName(n string) *TypeInfo {
